@@ -751,6 +751,20 @@ func C09(seed uint64, run int) *spec.Spec {
 		}
 		s.Tasks = append(s.Tasks, task)
 	}
+	// fault: the wall clock moves on between calls (minutes to a day; never across a year, so that the
+	// clock-dependent reverse lookup keeps its fresh-process answer)
+	if r.Chance(0.3) {
+		f.ClockJump = true
+		k := r.Range(1, 3)
+		for i := 0; i < k; i++ {
+			t := r.Intn(len(s.Tasks))
+			pos := r.Intn(len(s.Tasks[t].Ops) + 1)
+			d := int64(r.Pick([]int{61, 600, 3600, 6 * 3600, 86400}))
+			st := spec.Step{Clock: &d, Fault: "clock_jump"}
+			o := s.Tasks[t].Ops
+			s.Tasks[t].Ops = append(o[:pos:pos], append([]spec.Step{st}, o[pos:]...)...)
+		}
+	}
 	// policy
 	c := &s.Config
 	if kind == 0 {
